@@ -7,7 +7,7 @@ import PkgProofs.Lemmas.MarkerLayoutParse
 canonical names, double quotes).  Here the same is proved for every way of writing a formula that the tokenizer
 admits:
 
-* a run of white space (space / tab, the `WS` rule) at the start, at the end, on both sides of every operator,
+* a run of white space (space / tab, the `WS` rule) at the start, at the end (optionally followed by one newline), on both sides of every operator,
   of `and` / `or`, inside every parenthesis and between `not` and `in` — possibly empty wherever two word
   characters do not meet (`NoMerge`), non-empty between `not` and `in`;
 * every literal delimited by `"` or by `'` (the delimiter must not occur in it);
@@ -25,15 +25,17 @@ set_option linter.unusedSimpArgs false
 
 /-! ### layouts -/
 
-/-- a layout of a marker text: leading white space, the layout of the expression, trailing white space -/
+/-- a layout of a marker text: leading white space, the layout of the expression, trailing white space, and
+whether a final newline follows (the `END` rule's `$` matches before it) -/
 structure MkLayout where
   lead : Str
   body : ExprLay
   trail : Str
+  nl : Bool := false
   deriving DecidableEq, Repr
 
 /-- the formula `t` written according to the layout `ℓ` -/
-def renderL (t : Formula) (ℓ : MkLayout) : Str := ℓ.lead ++ (renderE ℓ.body t ++ ℓ.trail)
+def renderL (t : Formula) (ℓ : MkLayout) : Str := ℓ.lead ++ (renderE ℓ.body t ++ (ℓ.trail ++ nlTail ℓ.nl))
 
 def isParen : ExprLay → Bool
   | .paren _ _ _ => true
@@ -126,14 +128,14 @@ comparisons with the variables under their canonical names, the same operators a
 theorem marker_parse_render_layout (t : Formula) (ℓ : MkLayout) (h : WF t ℓ) :
     ∃ m, Mk.parse (renderL t ℓ) = .ok m ∧ formulaOf m = some t ∧ m = flat ℓ.body t := by
   obtain ⟨h0, h3, hl, hg⟩ := h
-  exact ⟨flat ℓ.body t, parse_renderE ℓ.body t hl ℓ.lead ℓ.trail h0 h3, formulaOf_flat ℓ.body t hg, rfl⟩
+  exact ⟨flat ℓ.body t, parse_renderE ℓ.body t hl ℓ.lead ℓ.trail h0 h3 ℓ.nl, formulaOf_flat ℓ.body t hg, rfl⟩
 
 /-- the lexical half alone (no condition on where parentheses are): the parser accepts and returns `flat` — one
 nested list per pair of parentheses, the operands of unparenthesised `and` / `or` in a row (which `formulaOf` then
 reads with `and` binding tighter than `or`, left to right) -/
 theorem marker_parse_render_lex (t : Formula) (ℓ : MkLayout) (h0 : WsRun ℓ.lead) (h3 : WsRun ℓ.trail) (hl : FitsLex ℓ.body t) :
     Mk.parse (renderL t ℓ) = .ok (flat ℓ.body t) :=
-  parse_renderE ℓ.body t hl ℓ.lead ℓ.trail h0 h3
+  parse_renderE ℓ.body t hl ℓ.lead ℓ.trail h0 h3 ℓ.nl
 
 theorem atomsL_flat : (ℓ : ExprLay) → (t : Formula) → Grouped ℓ t → atomsL (flat ℓ t) = atoms t
   | .paren _ ℓ _, t, h => by simp only [Grouped] at h; simp [flat, atomsL, atomsM, atomsL_flat ℓ t h]
@@ -245,15 +247,16 @@ def v_extra : Str := [101, 120, 116, 114, 97]
 /-- `a1 or a2 and (a3 or a4)` with the comparisons of the examples of C07.lean -/
 def exT : Formula := .or (.atom a1) (.and (.atom a2) (.or (.atom a3) (.atom a4)))
 
-/-- `  os.name=='a'or"b"in extra and(python_full_version>="3.8"<TAB>or extra not <TAB> in 'A_b' )<TAB>`:
-PEP 345 spelling, both quote styles, no white space where none is needed, tabs, a two-space-and-tab `not in` -/
+/-- `  os.name=='a'or"b"in extra and(python_full_version>="3.8"<TAB>or extra not <TAB> in 'A_b' )<TAB><LF>`:
+PEP 345 spelling, both quote styles, no white space where none is needed, tabs, a two-space-and-tab `not in`,
+a final newline -/
 def layA : MkLayout :=
   ⟨[32, 32],
    .bin (.atom ⟨.spelled v_os_dot, [], [], [], .quoted 39⟩) [] []
      (.bin (.atom ⟨.quoted 34, [], [], [32], .spelled v_extra⟩) [32] []
        (.paren [] (.bin (.atom ⟨.spelled s_pfv, [], [], [], .quoted 34⟩) [9] [32]
                         (.atom ⟨.spelled v_extra, [32], [32, 9, 32], [32], .quoted 39⟩)) [32])),
-   [9]⟩
+   [9], true⟩
 
 /-- `((os_name == "a") or ("b" in extra) and ((python_full_version >= "3.8" or extra not in "A_b")))`:
 canonical names and quotes, redundant parentheses around comparisons, a group and the whole -/
@@ -263,9 +266,9 @@ def layB : MkLayout :=
      (.bin (.paren [] (.atom ⟨.quoted 34, [32], [], [32], .spelled v_extra⟩) []) [32] [32]
        (.paren [] (.paren [] (.bin (.atom ⟨.spelled s_pfv, [32], [], [32], .quoted 34⟩) [32] [32]
                         (.atom ⟨.spelled v_extra, [32], [32], [32], .quoted 34⟩)) []) []))) [],
-   []⟩
+   [], false⟩
 
-example : renderL exT layA = [32, 32, 111, 115, 46, 110, 97, 109, 101, 61, 61, 39, 97, 39, 111, 114, 34, 98, 34, 105, 110, 32, 101, 120, 116, 114, 97, 32, 97, 110, 100, 40, 112, 121, 116, 104, 111, 110, 95, 102, 117, 108, 108, 95, 118, 101, 114, 115, 105, 111, 110, 62, 61, 34, 51, 46, 56, 34, 9, 111, 114, 32, 101, 120, 116, 114, 97, 32, 110, 111, 116, 32, 9, 32, 105, 110, 32, 39, 65, 95, 98, 39, 32, 41, 9] := by decide +kernel
+example : renderL exT layA = [32, 32, 111, 115, 46, 110, 97, 109, 101, 61, 61, 39, 97, 39, 111, 114, 34, 98, 34, 105, 110, 32, 101, 120, 116, 114, 97, 32, 97, 110, 100, 40, 112, 121, 116, 104, 111, 110, 95, 102, 117, 108, 108, 95, 118, 101, 114, 115, 105, 111, 110, 62, 61, 34, 51, 46, 56, 34, 9, 111, 114, 32, 101, 120, 116, 114, 97, 32, 110, 111, 116, 32, 9, 32, 105, 110, 32, 39, 65, 95, 98, 39, 32, 41, 9, 10] := by decide +kernel
 example : renderL exT layB = [40, 40, 111, 115, 95, 110, 97, 109, 101, 32, 61, 61, 32, 34, 97, 34, 41, 32, 111, 114, 32, 40, 34, 98, 34, 32, 105, 110, 32, 101, 120, 116, 114, 97, 41, 32, 97, 110, 100, 32, 40, 40, 112, 121, 116, 104, 111, 110, 95, 102, 117, 108, 108, 95, 118, 101, 114, 115, 105, 111, 110, 32, 62, 61, 32, 34, 51, 46, 56, 34, 32, 111, 114, 32, 101, 120, 116, 114, 97, 32, 110, 111, 116, 32, 105, 110, 32, 34, 65, 95, 98, 34, 41, 41, 41] := by decide +kernel
 example : WF exT layA := by decide +kernel
 example : WF exT layB := by decide +kernel
